@@ -245,6 +245,15 @@ func (c13) Run(t *testing.T, tape *core.Tape, rcx *RunCtx) *core.Result {
 	bigAt := tape.Draw(nrec)
 	for i := range recs {
 		recs[i] = fasta.Fasta{Name: c13Name(tape), Sequence: c13Seq(tape, large && i == bigAt)}
+		if i > 0 && !(large && i == bigAt) {
+			// duplicates are legal: the same name again, or the very same record again
+			switch tape.Weighted(88, 6, 6) {
+			case 1:
+				recs[i].Name = recs[i-1].Name
+			case 2:
+				recs[i] = recs[tape.Draw(i)]
+			}
+		}
 		if i < 5 {
 			sc.Names = append(sc.Names, recs[i].Name)
 		}
